@@ -118,7 +118,7 @@ func buildReplayBinary(tmp, pkgPath string, harnesses []string) (string, error) 
 	ovFile := filepath.Join(tmp, "overlay_"+tag+".json")
 	os.WriteFile(ovFile, ovj, 0o644)
 	bin := filepath.Join(tmp, "replay_"+tag+".test")
-	cmd := exec.Command("go", "test", "-c", "-tags", buildTag, "-vet=off", "-overlay", ovFile, "-o", bin, pkgPath)
+	cmd := exec.Command("go", "test", "-c", "-tags", buildTag+",faketime", "-vet=off", "-overlay", ovFile, "-o", bin, pkgPath)
 	cmd.Dir = repoDir
 	cmd.Env = goEnv()
 	out, err := cmd.CombinedOutput()
@@ -134,7 +134,8 @@ func runReplayBinary(bin, tmp string, cases []Case, memLimitKB int, timeout time
 	cf.Write(b)
 	cf.Close()
 	of := cf.Name() + ".out"
-	sh := fmt.Sprintf("ulimit -v %d; exec %s -test.run '^TestZZVerifReplay$' -test.count=1 -test.timeout=%ds", memLimitKB, bin, int(timeout.Seconds()))
+	// faketime freezes the clock, so the test binary's own timeout cannot fire on a busy loop: use timeout(1)
+	sh := fmt.Sprintf("ulimit -v %d; exec timeout -s KILL %d %s -test.run '^TestZZVerifReplay$' -test.count=1 -test.timeout=0", memLimitKB, int(timeout.Seconds()), bin)
 	cmd := exec.Command("bash", "-c", sh)
 	cmd.Dir = os.TempDir()
 	cmd.Env = append(os.Environ(), "VERIF_REPLAY="+cf.Name(), "VERIF_REPLAY_OUT="+of)
